@@ -904,6 +904,8 @@ static const unsigned char ALPHA[][16] = {
 	{ B(K_DELN, 0), B(K_REPLN, 0), B(K_ADDR, 0), B(K_DEL, 0), B(K_ADD, 0), B(K_ADD, 1), B(K_LOOKUP, 0), B(K_WALKALL, 0), 0 },
 	/* 3: resize actor */
 	{ B(K_RESIZE, 1), B(K_RESIZE, 2), B(K_RESIZE, 4), B(K_RESIZE, 3), 0 },
+	/* 4: operations on key 1 (with hmap 1 / 2 its hash is the index of a bucket that a grow creates) */
+	{ B(K_ADD, 1), B(K_ADDU, 1), B(K_ADDR, 1), B(K_REPL, 1), B(K_DEL, 1), B(K_LOOKUP, 1), B(K_WALKK, 1), B(K_WALKALL, 0), 0 },
 };
 
 static void run_conc(void)
